@@ -84,7 +84,7 @@ func (p RowData) ParseText(f []*Field) ([]interface{}, error) {
 				data[i], err = decimal.NewFromString(string(v))
 			case TypeVarchar, TypeVarString,
 				TypeString, TypeDatetime,
-				TypeDate, TypeDuration, TypeTimestamp:
+				TypeDate, TypeNewDate, TypeDuration, TypeTimestamp:
 				data[i] = string(v)
 			default:
 				data[i] = v
